@@ -10,6 +10,8 @@ CONSTANTS
   Filters <- FAll
   Order <- OrderStated
   CompileMode = "stated"
+  Inners <- InnersNone
+  ScopeMode = "stated"
 INIT GInitQuick
 NEXT GNext
 INVARIANTS ExpectInv CompileInv Emit
